@@ -40,13 +40,17 @@ structure State where
   gpl : Option Nat
   rgl : Option Nat
   child : Bool             -- between fork and the prune, in the child
+  mask : Nat → Nat         -- signal mask of a thread outside liburcu calls (as a bit set)
+  omask : Nat → Nat        -- the handlers' local `oldmask`
+  saved : Nat              -- `saved_fork_signal_mask` (file scope, protected by rcu_gp_lock)
+  pre : Nat → Nat          -- ghost: the thread's mask when it entered urcu_bp_before_fork()
 
 def init : State :=
   { pc := fun _ => .idle, nest := fun _ => 0, sigblk := fun _ => false, registry := [], held := [],
-    gpl := none, rgl := none, child := false }
+    gpl := none, rgl := none, child := false, mask := fun _ => 0, omask := fun _ => 0, saved := 0, pre := fun _ => 0 }
 
 inductive Label
-  | spawn (t : Nat) | rlock (t : Nat) | runlock (t : Nat)
+  | spawn (t : Nat) | setMask (t m : Nat) | rlock (t : Nat) | runlock (t : Nat)
   | regBegin (t : Nat) | regEnd (t : Nat) | unregBegin (t : Nat) | unregEnd (t : Nat) | sigReg (t : Nat)
   | gpCall (t : Nat) | gpLock (t : Nat) | rgLock (t : Nat) | gpMove (t r : Nat) | rgDrop (t : Nat) | gpBack (t : Nat)
   | rgUnlock (t : Nat) | gpUnlock (t : Nat)
@@ -62,6 +66,9 @@ def step (s : State) : Label → Option State
     if s.pc t = .gone ∧ s.child = false ∧ t ∉ s.registry ∧ t ∉ s.held then
       some { s with pc := upd s.pc t .idle, sigblk := upd s.sigblk t false, nest := upd s.nest t 0 }
     else none
+  | .setMask t m =>
+    -- the application changes the thread's signal mask (outside liburcu)
+    if s.pc t = .idle then some { s with mask := upd s.mask t m } else none
   | .rlock t =>
     -- the first rcu_read_lock() of a thread registers it (regBegin/regEnd) – here: already registered
     if s.pc t = .idle ∧ (t ∈ s.registry ∨ t ∈ s.held) then some { s with nest := upd s.nest t (s.nest t + 1) } else none
@@ -114,11 +121,15 @@ def step (s : State) : Label → Option State
       some { s with pc := upd s.pc t .idle, gpl := none, sigblk := upd s.sigblk t false }
     else none
   | .bfCall t =>
-    if s.pc t = .idle then some { s with pc := upd s.pc t .bf1, sigblk := upd s.sigblk t true } else none
+    -- pthread_sigmask(SIG_BLOCK, &newmask, &oldmask)
+    if s.pc t = .idle then
+      some { s with pc := upd s.pc t .bf1, sigblk := upd s.sigblk t true, omask := upd s.omask t (s.mask t), pre := upd s.pre t (s.mask t) }
+    else none
   | .bfGp t =>
     if s.pc t = .bf1 ∧ s.gpl = none then some { s with pc := upd s.pc t .bf2, gpl := some t } else none
   | .bfRg t =>
-    if s.pc t = .bf2 ∧ s.rgl = none then some { s with pc := upd s.pc t .atFork, rgl := some t } else none
+    -- mutex_lock(&rcu_registry_lock); saved_fork_signal_mask = oldmask;
+    if s.pc t = .bf2 ∧ s.rgl = none then some { s with pc := upd s.pc t .atFork, rgl := some t, saved := s.omask t } else none
   | .fork t =>
     if s.pc t = .atFork then
       some { s with pc := fun u => if u = t then .ac0 else .gone, child := true }
@@ -126,20 +137,22 @@ def step (s : State) : Label → Option State
   | .forkParent t =>
     if s.pc t = .atFork then some { s with pc := upd s.pc t .ap1 } else none
   | .apRg t =>
-    if s.pc t = .ap1 ∧ s.rgl = some t then some { s with pc := upd s.pc t .ap2, rgl := none } else none
+    -- oldmask = saved_fork_signal_mask; mutex_unlock(&rcu_registry_lock)
+    if s.pc t = .ap1 ∧ s.rgl = some t then some { s with pc := upd s.pc t .ap2, rgl := none, omask := upd s.omask t s.saved } else none
   | .apGp t =>
+    -- mutex_unlock(&rcu_gp_lock); pthread_sigmask(SIG_SETMASK, &oldmask, NULL)
     if s.pc t = .ap2 ∧ s.gpl = some t then
-      some { s with pc := upd s.pc t .idle, gpl := none, sigblk := upd s.sigblk t false }
+      some { s with pc := upd s.pc t .idle, gpl := none, sigblk := upd s.sigblk t false, mask := upd s.mask t (s.omask t) }
     else none
   | .acPrune t =>
     if s.pc t = .ac0 then
-      some { s with pc := upd s.pc t .ac1, registry := s.registry.filter (· = t), child := false }
+      some { s with pc := upd s.pc t .ac1, registry := s.registry.filter (· = t), child := false, omask := upd s.omask t s.saved }
     else none
   | .acRg t =>
     if s.pc t = .ac1 ∧ s.rgl = some t then some { s with pc := upd s.pc t .ac2, rgl := none } else none
   | .acGp t =>
     if s.pc t = .ac2 ∧ s.gpl = some t then
-      some { s with pc := upd s.pc t .idle, gpl := none, sigblk := upd s.sigblk t false }
+      some { s with pc := upd s.pc t .idle, gpl := none, sigblk := upd s.sigblk t false, mask := upd s.mask t (s.omask t) }
     else none
 
 inductive Reach : State → Prop
@@ -184,19 +197,134 @@ structure Inv (s : State) : Prop where
   held_gp' : s.held ≠ [] → s.gpl ≠ none
   child_pc : s.child = true → ∀ u, s.pc u = .ac0 ∨ s.pc u = .gone
   ac0_child : ∀ t, s.pc t = .ac0 → s.child = true
+  mk_entry : ∀ t, s.pc t = .bf1 ∨ s.pc t = .bf2 → s.omask t = s.pre t ∧ s.mask t = s.pre t
+  mk_saved : ∀ t, s.pc t = .atFork ∨ s.pc t = .ap1 ∨ s.pc t = .ac0 → s.saved = s.pre t ∧ s.mask t = s.pre t
+  mk_exit : ∀ t, s.pc t = .ap2 ∨ s.pc t = .ac1 ∨ s.pc t = .ac2 → s.omask t = s.pre t ∧ s.mask t = s.pre t
 
 theorem inv_init : Inv init := by
   constructor <;> simp [init, Pc.holdsG, Pc.holdsR, Pc.blocked]
 
-set_option linter.unusedVariables false in
-set_option linter.unusedSimpArgs false in
-theorem inv_step {s s' : State} {l : Label} (h : Inv s) (st : step s l = some s') : Inv s' := by
-  obtain ⟨h1, h2, h3, h4, h5, h6, h7, h7', h8, h9⟩ := h
-  cases l
-  all_goals (simp only [step] at st; split at st)
+set_option linter.unusedVariables false
+set_option linter.unusedSimpArgs false
+set_option hygiene false in
+macro "b_tac" : tactic => `(tactic| (
+  obtain ⟨h1, h2, h3, h4, h5, h6, h7, h7', h8, h9, h10, h11, h12⟩ := h
+  simp only [step] at st
+  split at st
   all_goals (first | (simp at st; done) | skip)
   all_goals (simp only [Option.some.injEq] at st; subst st)
-  all_goals (constructor <;> first | assumption | (simp only [upd, List.mem_filter, List.mem_cons, List.mem_append, decide_eq_true_eq] at * <;> grind (splits := 25) [upd, Pc.holdsG, Pc.holdsR, Pc.blocked]))
+  all_goals (constructor <;> first | assumption | (simp only [upd, List.mem_filter, List.mem_cons, List.mem_append, decide_eq_true_eq] at * <;> grind (splits := 25) [upd, Pc.holdsG, Pc.holdsR, Pc.blocked]))))
+
+theorem inv_spawn {s s' : State} (h : Inv s) (a0 : _) (st : step s (.spawn a0) = some s') : Inv s' := by
+  b_tac
+
+theorem inv_setMask {s s' : State} (h : Inv s) (a0 a1 : _) (st : step s (.setMask a0 a1) = some s') : Inv s' := by
+  b_tac
+
+theorem inv_rlock {s s' : State} (h : Inv s) (a0 : _) (st : step s (.rlock a0) = some s') : Inv s' := by
+  b_tac
+
+theorem inv_runlock {s s' : State} (h : Inv s) (a0 : _) (st : step s (.runlock a0) = some s') : Inv s' := by
+  b_tac
+
+theorem inv_regBegin {s s' : State} (h : Inv s) (a0 : _) (st : step s (.regBegin a0) = some s') : Inv s' := by
+  b_tac
+
+theorem inv_regEnd {s s' : State} (h : Inv s) (a0 : _) (st : step s (.regEnd a0) = some s') : Inv s' := by
+  b_tac
+
+theorem inv_unregBegin {s s' : State} (h : Inv s) (a0 : _) (st : step s (.unregBegin a0) = some s') : Inv s' := by
+  b_tac
+
+theorem inv_unregEnd {s s' : State} (h : Inv s) (a0 : _) (st : step s (.unregEnd a0) = some s') : Inv s' := by
+  b_tac
+
+theorem inv_sigReg {s s' : State} (h : Inv s) (a0 : _) (st : step s (.sigReg a0) = some s') : Inv s' := by
+  b_tac
+
+theorem inv_gpCall {s s' : State} (h : Inv s) (a0 : _) (st : step s (.gpCall a0) = some s') : Inv s' := by
+  b_tac
+
+theorem inv_gpLock {s s' : State} (h : Inv s) (a0 : _) (st : step s (.gpLock a0) = some s') : Inv s' := by
+  b_tac
+
+theorem inv_rgLock {s s' : State} (h : Inv s) (a0 : _) (st : step s (.rgLock a0) = some s') : Inv s' := by
+  b_tac
+
+theorem inv_gpMove {s s' : State} (h : Inv s) (a0 a1 : _) (st : step s (.gpMove a0 a1) = some s') : Inv s' := by
+  b_tac
+
+theorem inv_rgDrop {s s' : State} (h : Inv s) (a0 : _) (st : step s (.rgDrop a0) = some s') : Inv s' := by
+  b_tac
+
+theorem inv_gpBack {s s' : State} (h : Inv s) (a0 : _) (st : step s (.gpBack a0) = some s') : Inv s' := by
+  b_tac
+
+theorem inv_rgUnlock {s s' : State} (h : Inv s) (a0 : _) (st : step s (.rgUnlock a0) = some s') : Inv s' := by
+  b_tac
+
+theorem inv_gpUnlock {s s' : State} (h : Inv s) (a0 : _) (st : step s (.gpUnlock a0) = some s') : Inv s' := by
+  b_tac
+
+theorem inv_bfCall {s s' : State} (h : Inv s) (a0 : _) (st : step s (.bfCall a0) = some s') : Inv s' := by
+  b_tac
+
+theorem inv_bfGp {s s' : State} (h : Inv s) (a0 : _) (st : step s (.bfGp a0) = some s') : Inv s' := by
+  b_tac
+
+theorem inv_bfRg {s s' : State} (h : Inv s) (a0 : _) (st : step s (.bfRg a0) = some s') : Inv s' := by
+  b_tac
+
+theorem inv_fork {s s' : State} (h : Inv s) (a0 : _) (st : step s (.fork a0) = some s') : Inv s' := by
+  b_tac
+
+theorem inv_forkParent {s s' : State} (h : Inv s) (a0 : _) (st : step s (.forkParent a0) = some s') : Inv s' := by
+  b_tac
+
+theorem inv_apRg {s s' : State} (h : Inv s) (a0 : _) (st : step s (.apRg a0) = some s') : Inv s' := by
+  b_tac
+
+theorem inv_apGp {s s' : State} (h : Inv s) (a0 : _) (st : step s (.apGp a0) = some s') : Inv s' := by
+  b_tac
+
+theorem inv_acPrune {s s' : State} (h : Inv s) (a0 : _) (st : step s (.acPrune a0) = some s') : Inv s' := by
+  b_tac
+
+theorem inv_acRg {s s' : State} (h : Inv s) (a0 : _) (st : step s (.acRg a0) = some s') : Inv s' := by
+  b_tac
+
+theorem inv_acGp {s s' : State} (h : Inv s) (a0 : _) (st : step s (.acGp a0) = some s') : Inv s' := by
+  b_tac
+
+theorem inv_step {s s' : State} {l : Label} (h : Inv s) (st : step s l = some s') : Inv s' := by
+  cases l with
+  | spawn a0 => exact inv_spawn h _ st
+  | setMask a0 a1 => exact inv_setMask h _ _ st
+  | rlock a0 => exact inv_rlock h _ st
+  | runlock a0 => exact inv_runlock h _ st
+  | regBegin a0 => exact inv_regBegin h _ st
+  | regEnd a0 => exact inv_regEnd h _ st
+  | unregBegin a0 => exact inv_unregBegin h _ st
+  | unregEnd a0 => exact inv_unregEnd h _ st
+  | sigReg a0 => exact inv_sigReg h _ st
+  | gpCall a0 => exact inv_gpCall h _ st
+  | gpLock a0 => exact inv_gpLock h _ st
+  | rgLock a0 => exact inv_rgLock h _ st
+  | gpMove a0 a1 => exact inv_gpMove h _ _ st
+  | rgDrop a0 => exact inv_rgDrop h _ st
+  | gpBack a0 => exact inv_gpBack h _ st
+  | rgUnlock a0 => exact inv_rgUnlock h _ st
+  | gpUnlock a0 => exact inv_gpUnlock h _ st
+  | bfCall a0 => exact inv_bfCall h _ st
+  | bfGp a0 => exact inv_bfGp h _ st
+  | bfRg a0 => exact inv_bfRg h _ st
+  | fork a0 => exact inv_fork h _ st
+  | forkParent a0 => exact inv_forkParent h _ st
+  | apRg a0 => exact inv_apRg h _ st
+  | apGp a0 => exact inv_apGp h _ st
+  | acPrune a0 => exact inv_acPrune h _ st
+  | acRg a0 => exact inv_acRg h _ st
+  | acGp a0 => exact inv_acGp h _ st
 
 theorem inv_reach {s : State} (h : Reach s) : Inv s := by
   induction h with
